@@ -526,6 +526,18 @@ func (b *c19base) exercise(a artefact, queries []*bs.Query, exact [][]string) (f
 			bs.ReadDataBlockBloomFilters(bytes.NewReader(a.data), blk)
 		}
 	}
+	// helpers with the metadata a MetaStore holds for the file (the original one): an extent
+	// that does not lie within the artefact cannot be read, so the helper must fail — whatever
+	// an earlier read of the same extents (the previous artefact) left in a recycled buffer
+	for i := range b.md.DataBlocks {
+		blk := b.md.DataBlocks[i]
+		if _, ferr := bs.ReadDataBlockBloomFilters(bytes.NewReader(a.data), blk); ferr == nil && blk.BloomFilterSize > 0 && blk.BloomFilterOffset+blk.BloomFilterSize > len(a.data) {
+			add("c19-helper-read-past-eof", "ReadDataBlockBloomFilters reads the filter section [%d,+%d) of block %d from a %d-byte file without an error", blk.BloomFilterOffset, blk.BloomFilterSize, i, len(a.data))
+		}
+		if _, rerr := bs.ReadDataBlockRowData(bytes.NewReader(a.data), &blk); rerr == nil && blk.RowDataOffset+blk.RowDataSize > len(a.data) {
+			add("c19-helper-read-past-eof", "ReadDataBlockRowData reads the row data [%d,+%d) of block %d from a %d-byte file without an error", blk.RowDataOffset, blk.RowDataSize, i, len(a.data))
+		}
+	}
 	// queries: (1) the artefact describes itself (FileSystemDataStore-like flow);
 	// (2) the MetaStore holds the original metadata, the DataStore serves the artefact
 	run := func(flow string, meta *bs.FileMetadata, mustBeExact bool) {
